@@ -661,6 +661,67 @@ func c05Reporting(c *Ctx) {
 	}
 }
 
+// c05LargeValues: partial results whose numbers are large, tiny, negative or fractional travel through the real
+// serialisation (server side), the wire framing and the client's merge; the final result must be the one a central
+// evaluation prints (the same aggregate set merged directly, without serialisation).
+func c05LargeValues(c *Ctx) {
+	values := []float64{0, 1, 999999, 1000000, 1234567, 1e7 + 1, 123456789012, 1e15, 1e21, 0.5, 1e-7, 2.5e-5, -1, -1000000, -2.5e6, 1e6 + 0.25}
+	res := vrt.Run(vrt.Config{MaxSteps: 1 << 40, Horizon: 1000 * time.Hour}, func() {
+		args := DefaultArgs()
+		args.Logger = "none"
+		args.LogLevel = "error"
+		StartEnv(source.Client, &args, nil)
+		config.Client.TermColorsEnable = false
+		q, err := mapr.NewQuery("select count(x),sum(y),min(y),max(y),avg(y),k group by k")
+		if err != nil {
+			panic(err)
+		}
+		for _, v := range values {
+			for _, parts := range []int{1, 2} {
+				mk := func() *mapr.GroupSet {
+					g := mapr.NewGroupSet()
+					s := g.GetSet("key")
+					s.Samples = 3
+					s.FValues["count(x)"] = v
+					s.FValues["sum(y)"] = v
+					s.FValues["min(y)"] = v
+					s.FValues["max(y)"] = v
+					s.FValues["avg(y)"] = v
+					s.SValues["k"] = "key"
+					return g
+				}
+				// central: the partial results merged directly
+				central := mapr.NewGlobalGroupSet()
+				for i := 0; i < parts; i++ {
+					if err := central.Merge(q, mk()); err != nil {
+						panic(err)
+					}
+				}
+				want, _, _ := central.Result(q, 10)
+				// distributed: serialised by the server code, framed, merged by the client handler
+				global := mapr.NewGlobalGroupSet()
+				h := chandlers.NewMaprHandler("srv0", q, global)
+				for i := 0; i < parts; i++ {
+					ch := vrt.Make[string]("maprMessages", 100)
+					mk().Serialize(vcontext.Background(), ch)
+					for ch.Len("drain") > 0 {
+						h.Write([]byte("AGGREGATE|host0|" + ch.Recv("drain") + "\xac"))
+					}
+				}
+				got, _, _ := global.Result(q, 10)
+				c.Count(fmt.Sprintf("large|%v|%d", v, parts))
+				if got != want {
+					c.Violation("large-or-fractional-value-lost-in-transmission", fmt.Sprintf("a partial result with count/sum/min/max/avg = %v sent in %d part(s): the client's final result is %q, the central evaluation (same sets merged directly) is %q", v, parts, got, want), map[string]interface{}{"value": v, "parts": parts})
+				}
+				vrt.Forget()
+			}
+		}
+	})
+	if res.Fail != nil {
+		c.Violation("large-value-crash", res.Fail.Error(), nil)
+	}
+}
+
 func c05Run(c *Ctx) {
 	full := c.Thorough()
 	n := 2
@@ -705,9 +766,12 @@ func init() {
 			"to cells {server0/file0/interval0, server0/file0/interval1, server0/file1, server1/file0}, x ~150 queries (select lists over count/sum/min/max/avg/len/last, where none/float/string, group by k/default, order/rorder/limit, set); " +
 			"each runs the real server Aggregate per server (lines fed per file, Serialize at the interval boundary), the real client MaprHandler/client.Aggregate and GlobalGroupSet.WriteResult; differential oracle: CSV result of the partitioned run == " +
 			"CSV result of the same code with the trivial partition (float tolerance 1e-9, ties in any order, limit keeps the best rows); last/len only on group-constant fields so that no choice is involved; non-trivial = non-trivial partition and non-empty result",
-		Assumptions: []string{"canonical schedule for the table x partition x query product (C06 explores schedules); interval boundaries are placed at quiescent points; the client's reporting path (interim report, final report, arriving partial results) is explored under all schedules within 2 deviations"},
+		Assumptions: []string{"canonical schedule for the table x partition x query product (C06 explores schedules); interval boundaries are placed at quiescent points; the client's reporting path (interim report, final report, arriving partial results) is explored under all schedules within 2 deviations; partial results with 16 large/tiny/negative/fractional values go through the real serialisation and merge and are compared with the directly merged sets"},
 		Run: func(c *Ctx) {
 			c05Reporting(c)
+			if c.Shard == 0 {
+				c05LargeValues(c)
+			}
 			res := vrt.Run(vrt.Config{MaxSteps: 1 << 50, Horizon: 1 << 60}, func() {
 				args := DefaultArgs()
 				args.Logger = "none"
